@@ -14,6 +14,8 @@ says what the k-th host command counted from mark() returns instead:
 
     ["status", s]          the response carries only the status byte s (commands with a status field)
     ["fault", name]        a host-link fault, one of FAULTS_FRAME / FAULTS_CCID
+    ["fault", name, n]     a host-link fault with a length, one of FAULTS_LEN_FRAME / FAULTS_LEN_CCID: the transfer
+                           named is cut to its first n octets (every n the transfer allows, see len_actions())
     ["rfoff"]              (FeliCa listen through the CIU) the external field drops: CIU_DivIRq.RFOffIRq
 
 What is in the RF field is a Field object (tags for the initiator commands, a scripted remote initiator for the
@@ -52,6 +54,38 @@ FAULTS_CCID = [
     "ccid-short", "ccid-type", "ccid-len", "apdu-short", "sw-error", "sw-only", "garbled-all",
     "wrongcode", "wrongtfi", "nostatus",
 ]
+
+# host-link faults with a length: what the host reads is the beginning of what the chip (reader) sent --------
+FAULTS_LEN_FRAME = [
+    "trunc",            # ACK, then the first n octets of the response frame          n = 1 .. len(frame)-1
+    "ack-trunc",        # the first n octets of the ACK frame, then the response      n = 1 .. len(ACK)-1
+]
+FAULTS_LEN_CCID = [
+    "trunc",            # the first n octets of the RDR_to_PC_DataBlock message       n = 1 .. len(message)-1
+    "apdu-trunc",       # well formed CCID message whose abData is cut to n octets    n = 0 .. len(abData)-1
+]
+
+
+def len_actions(link, rsp):
+    """every ["fault", name, n] of the link type for a command whose regular answer is described by rsp =
+    (length of the response frame / CCID message, length of its header) as logged in ChipsetSim.rsplog"""
+    total, hdr = rsp
+    acts = [["fault", "trunc", n] for n in range(1, total)]
+    if link == "ccid":
+        acts += [["fault", "apdu-trunc", n] for n in range(0, total - hdr)]
+    else:
+        acts += [["fault", "ack-trunc", n] for n in range(1, len(ACK))]
+    return acts
+
+
+def cut_region(link, name, n, rsp):
+    """structural name of the place where a transfer was cut (for signatures and outcome classes)"""
+    if name != "trunc" or rsp is None:
+        return name
+    if link == "ccid":
+        return "trunc:ccid-header" if n < rsp[1] else "trunc:apdu"
+    return "trunc:frame-header" if n < rsp[1] else "trunc:frame-body"
+
 
 # commands whose response starts with a status byte (PN532 UM 7.x; PN533 adds it to the register commands)
 STATUS_CMDS_COMMON = {0x16, 0x40, 0x42, 0x44, 0x46, 0x4E, 0x50, 0x52, 0x54, 0x56, 0x86, 0x88, 0x8E, 0x90, 0x92, 0x94}
@@ -281,6 +315,7 @@ class ChipsetSim(object):
         self.mark_n = 0
         self.script = {}
         self.cmdlog = []                 # (n, cmd, len(params)) bounded
+        self.rsplog = {}                 # k -> (octets of the regular response frame / CCID message, of its header)
         self.bad_writes = []             # (clause, raw bytes) of host frames the validator rejected
         self.frames_ok = {"normal": 0, "extended": 0, "ack": 0, "ccid": 0, "long-preamble": 0}
         self.responder = None            # C14: callable(cmd, params) -> list of queue items, replaces the chip
@@ -297,6 +332,7 @@ class ChipsetSim(object):
         self.mark_n = self.n
         self.applied = []
         self.cmdlog = []
+        self.rsplog = {}
 
     def since_mark(self):
         return self.n - self.mark_n
@@ -310,6 +346,7 @@ class ChipsetSim(object):
         self.q = []
         self.applied = []
         self.cmdlog = []
+        self.rsplog = {}
         self.write_fault = None
 
     def has_status(self, cmd):
@@ -394,11 +431,32 @@ class ChipsetSim(object):
             rsp = None
         else:
             rsp = F.build_response(cmd, payload)
+        if rsp is not None and len(self.rsplog) < 400:
+            self.rsplog[k] = (len(rsp), 8 if rsp[3:5] == b"\xff\xff" else 5)
         if act is None:
             self.q = [ACK] + ([rsp] if rsp is not None else [])
             return
+        if len(act) > 2:
+            frames = self._cut_frames(act[1], int(act[2]), rsp)
+            if frames is None:                     # nothing to cut at that length: the command runs undisturbed
+                self.not_applicable += 1
+                self.q = [ACK] + ([rsp] if rsp is not None else [])
+                return
+            self.applied.append((k, list(act), cmd))
+            self.q = frames
+            return
         self.applied.append((k, list(act), cmd))
         self.q = self._fault_frames(act[1], cmd, rsp)
+
+    @staticmethod
+    def _cut_frames(name, n, rsp):
+        if rsp is None:
+            return None
+        if name == "trunc" and 0 < n < len(rsp):
+            return [ACK, rsp[:n]]
+        if name == "ack-trunc" and 0 < n < len(ACK):
+            return [ACK[:n], rsp]
+        return None
 
     def _fault_frames(self, name, cmd, rsp):
         if rsp is None:
@@ -498,12 +556,26 @@ class ChipsetSim(object):
             good = D(bytes.fromhex("6300"))                 # the ACR122U reports a failed PN532 operation as 63 00
         else:
             good = D(bytes([0xD5, (cmd + 1) & 0xFF]) + payload + b"\x90\x00")
+        if len(self.rsplog) < 400:
+            self.rsplog[k] = (len(good), 10)
         if act is None:
             self.q = [good]
             return
-        self.applied.append((k, list(act), cmd))
         name = act[1]
         body = good[10:]
+        if len(act) > 2:
+            n = int(act[2])
+            if name == "trunc" and 0 < n < len(good):
+                self.q = [good[:n]]
+            elif name == "apdu-trunc" and 0 <= n < len(body):
+                self.q = [D(body[:n])]
+            else:                                  # nothing to cut at that length: the command runs undisturbed
+                self.not_applicable += 1
+                self.q = [good]
+                return
+            self.applied.append((k, list(act), cmd))
+            return
+        self.applied.append((k, list(act), cmd))
         E = lambda e: ("raise", e)
         if name == "etimedout":
             self.q = []
